@@ -329,10 +329,19 @@ var failPool = []string{
 func constExpr(rt *rapid.T) (src, kind string) {
 	switch rapid.SampledFrom([]string{"int", "uint", "float", "float", "char", "string", "string", "bytes", "fn", "bool"}).Draw(rt, "ckind") {
 	case "int":
+		if rapid.IntRange(0, 3).Draw(rt, "extint") == 0 {
+			return intSrc(rapid.SampledFrom([]int64{math.MinInt64, math.MaxInt64, 0, -1, 63, 64, -64, -65}).Draw(rt, "cie")), "int"
+		}
 		return intSrc(vals.Int().Draw(rt, "ci")), "int"
 	case "uint":
+		if rapid.IntRange(0, 3).Draw(rt, "extuint") == 0 {
+			return strconv.FormatUint(rapid.SampledFrom([]uint64{math.MaxUint64, 0, 1 << 63, 127, 128}).Draw(rt, "cue"), 10) + "u", "uint"
+		}
 		return strconv.FormatUint(vals.Uint().Draw(rt, "cu"), 10) + "u", "uint"
 	case "float":
+		if rapid.IntRange(0, 2).Draw(rt, "extfloat") == 0 {
+			return floatSrc(rapid.SampledFrom([]float64{math.NaN(), math.Inf(1), math.Inf(-1), negZero(), 0, 5e-324, math.MaxFloat64, -math.MaxFloat64}).Draw(rt, "cfe")), "float"
+		}
 		return floatSrc(vals.Float().Draw(rt, "cf")), "float"
 	case "char":
 		return charSrc(vals.Char().Draw(rt, "cc")), "char"
@@ -347,7 +356,25 @@ func constExpr(rt *rapid.T) (src, kind string) {
 	case "bool":
 		return rapid.SampledFrom([]string{`true`, `false`, `undefined`}).Draw(rt, "cbool"), "bool"
 	}
+	if rapid.IntRange(0, 24).Draw(rt, "bigfn") == 0 {
+		// a function whose instructions / source map need multi-byte size prefixes
+		n := rapid.SampledFrom([]int{22, 300, 3000}).Draw(rt, "bigfnlen")
+		return "len(func() { return " + bigArray(n) + " }())", "fn"
+	}
 	return rapid.SampledFrom(fnPool).Draw(rt, "cfn"), "fn"
+}
+
+func bigArray(n int) string {
+	var sb strings.Builder
+	sb.WriteByte('[')
+	for i := 0; i < n; i++ {
+		if i > 0 {
+			sb.WriteString(", ")
+		}
+		sb.WriteString(strconv.Itoa(i % 7))
+	}
+	sb.WriteByte(']')
+	return sb.String()
 }
 
 // constStmts draws a few statements logging constant expressions.
